@@ -128,8 +128,15 @@ Definition NFNumStart := 0%N. Definition NFNumCont := 1%N. Definition NFSpecial 
 Definition NFSpace := 3%N. Definition NFEmpty := 4%N. Definition NFBinary := 5%N.
 Definition flag (take : Z) (bit : N) : bool := Z.testbit take (Z.of_N bit).
 
-Record allow := mkAllow { asect : Z; aopt : Z }.
-Definition allow_init := mkAllow 255 255.
+(* [araw] is not a name flag: it selects the variant of mpt_parse_option.  false = an option name
+   the caller has started (enclosed / separated family, first character stored and valid) is
+   continued with the next VISIBLE character (mpt_parse_nextvis: white space, newlines and comments
+   behind the first name character are dropped); true = it is continued with the next character as
+   it comes (mpt_parse_getchar), the code with docs/C09_option_name_blank.diff.  Every theorem is
+   stated for all [allow] values, that is for both variants. *)
+Record allow := mkAllow { asect : Z; aopt : Z; araw : bool }.
+Definition allow_init := mkAllow 255 255 false.
+Definition allow_variant (a : allow) (raw : bool) : allow := mkAllow (asect a) (aopt a) raw.
 
 Definition accept_type (c : Z) : option Z :=
   let t := tolower c in
@@ -152,11 +159,11 @@ Fixpoint accept_go (s : list Z) (sect opt n : Z) : option (Z * Z * Z) :=
 (* mpt_parse_accept: returns (return value, flags) *)
 Definition parse_accept (old : allow) (name : option (list Z)) : Z * allow :=
   match name with
-  | None => (0, mkAllow 255 255)
-  | Some [] => (0, mkAllow 2 2)
+  | None => (0, mkAllow 255 255 (araw old))
+  | Some [] => (0, mkAllow 2 2 (araw old))
   | Some s => match accept_go s 0 0 0 with
               | None => (-2, old)
-              | Some (se, op, n) => (n, mkAllow se op)
+              | Some (se, op, n) => (n, mkAllow se op (araw old))
               end
   end.
 
@@ -390,7 +397,9 @@ Fixpoint option_loop (f : format) (take : Z) (c : Z) (l : list Z) (s : pst) : R 
   else next (set_valid s).
 
 Definition parse_option (f : format) (a : allow) (l : list Z) (s : pst) : R :=
-  let '(c, r, s1) := nextvis f l s in
+  (* [named]: the caller stored the first name character (variant [araw], see [allow]) *)
+  let named := araw a && negb (valid s =? 0) && (ostart f =? 0) in
+  let '(c, r, s1) := if named then getchar l s else nextvis f l s in
   if c <? 0 then
     let s2 := with_curr s1 (if negb (valid s1 =? 0) then Z.lor POption PName else POption) in
     if negb (c =? -2) then (BadArgument, r, s2)
@@ -398,7 +407,7 @@ Definition parse_option (f : format) (a : allow) (l : list Z) (s : pst) : R :=
   else if negb (ostart f =? 0) && negb (c =? ostart f) && negb (valid s1 =? 0) then
     (BadValue, r, with_curr s1 (Z.lor POption PName))
   else
-    option_loop f (aopt a) c r (with_curr (addch s1 c) (Z.lor POption PName)).
+    option_loop f (aopt a) c r (with_curr (if named then s1 else addch s1 c) (Z.lor POption PName)).
 
 (* ---------------------------------------------------------------- mpt_parse_format_pre *)
 Definition section_add (take : Z) (cur : Z) (l : list Z) (s : pst) : R :=
